@@ -23,6 +23,8 @@ type CompressingResponseWriter struct {
 	writer     http.ResponseWriter
 	compressor io.WriteCloser
 	encoding   string
+	// cancelled is set when the response was taken out of content encoding before anything was written
+	cancelled bool
 }
 
 // Header is part of http.ResponseWriter interface
@@ -38,6 +40,9 @@ func (c *CompressingResponseWriter) WriteHeader(status int) {
 // Write is part of http.ResponseWriter interface
 // It is passed through the compressor
 func (c *CompressingResponseWriter) Write(bytes []byte) (int, error) {
+	if c.cancelled {
+		return c.writer.Write(bytes)
+	}
 	if c.isCompressorClosed() {
 		return -1, errors.New("Compressing error: tried to write data using closed compressor")
 	}
@@ -75,6 +80,23 @@ func (c *CompressingResponseWriter) Close() error {
 	// gc hint needed?
 	c.compressor = nil
 	return nil
+}
+
+// cancel takes the response out of content encoding. It must be called before anything is written:
+// the unused compressor goes back to its provider and the bytes pass through unchanged from then on.
+func (c *CompressingResponseWriter) cancel() {
+	if c.isCompressorClosed() {
+		return
+	}
+	c.writer.Header().Del(HEADER_ContentEncoding)
+	if ENCODING_GZIP == c.encoding {
+		currentCompressorProvider.ReleaseGzipWriter(c.compressor.(*gzip.Writer))
+	}
+	if ENCODING_DEFLATE == c.encoding {
+		currentCompressorProvider.ReleaseZlibWriter(c.compressor.(*zlib.Writer))
+	}
+	c.compressor = nil
+	c.cancelled = true
 }
 
 func (c *CompressingResponseWriter) isCompressorClosed() bool {
